@@ -9,7 +9,7 @@ from .flow import Engine
 
 # model switches: bit0 = F-03 repaired (recv_timeout tests the handle's closed flag),
 #                 bit1 = F-M1 repaired (clone of a closed sender is closed).  0 = the code as it is.
-FIXFLAGS = int(os.environ.get("VERIF_MPSC_FIXFLAGS", "0"))   # 3 = run against a tree with both repairs applied
+FIXFLAGS = int(os.environ.get("VERIF_MPSC_FIXFLAGS", "3"))   # 3 = run against a tree with both repairs applied
 
 FIX_CLONE = bool(FIXFLAGS & 2)     # API semantics after the F-M1 repair: a clone of a closed sender is closed
 
